@@ -9,30 +9,32 @@ namespace TfPwaV.Override
 /-! ## states -/
 
 theorem St.eq_of {s t : St} (h1 : t.params = s.params) (h2 : t.mask = s.mask) (h3 : t.chainsIdx = s.chainsIdx)
-    (h4 : t.notFull = s.notFull) (h5 : t.maskFactor = s.maskFactor) (h6 : t.config = s.config) (h7 : t.ls = s.ls) :
+    (h4 : t.notFull = s.notFull) (h5 : t.maskFactor = s.maskFactor) (h6 : t.config = s.config) (h7 : t.ls = s.ls)
+    (h8 : t.trainable = s.trainable) :
     t = s := by
   cases s; cases t; simp_all
 
 /-- `t` equals `s` up to the chain selection (`chainsIdx`, `notFull`). -/
 def Keeps (s t : St) : Prop :=
-  t.params = s.params ∧ t.mask = s.mask ∧ t.maskFactor = s.maskFactor ∧ t.config = s.config ∧ t.ls = s.ls
+  t.params = s.params ∧ t.mask = s.mask ∧ t.maskFactor = s.maskFactor ∧ t.config = s.config ∧ t.ls = s.ls ∧
+    t.trainable = s.trainable
 
-theorem Keeps.refl (s : St) : Keeps s s := ⟨rfl, rfl, rfl, rfl, rfl⟩
+theorem Keeps.refl (s : St) : Keeps s s := ⟨rfl, rfl, rfl, rfl, rfl, rfl⟩
 
 theorem Keeps.trans {a b c : St} (h1 : Keeps a b) (h2 : Keeps b c) : Keeps a c := by
-  obtain ⟨p1, p2, p3, p4, p5⟩ := h1
-  obtain ⟨q1, q2, q3, q4, q5⟩ := h2
-  exact ⟨q1.trans p1, q2.trans p2, q3.trans p3, q4.trans p4, q5.trans p5⟩
+  obtain ⟨p1, p2, p3, p4, p5, p6⟩ := h1
+  obtain ⟨q1, q2, q3, q4, q5, q6⟩ := h2
+  exact ⟨q1.trans p1, q2.trans p2, q3.trans p3, q4.trans p4, q5.trans p5, q6.trans p6⟩
 
 theorem restoreChains_eq {s t : St} (h : Keeps s t) : restoreChains s t = s := by
-  obtain ⟨p1, p2, p3, p4, p5⟩ := h
-  exact St.eq_of p1 p2 rfl rfl p3 p4 p5
+  obtain ⟨p1, p2, p3, p4, p5, p6⟩ := h
+  exact St.eq_of p1 p2 rfl rfl p3 p4 p5 p6
 
 theorem keeps_setUsedChains (E : Env) (s : St) (l : List Nat) : Keeps s (setUsedChains E s l) :=
-  ⟨rfl, rfl, rfl, rfl, rfl⟩
+  ⟨rfl, rfl, rfl, rfl, rfl, rfl⟩
 
 theorem keeps_setUsedRes (E : Env) (s : St) (r : List Sel) : Keeps s (setUsedRes E s r) :=
-  ⟨rfl, rfl, rfl, rfl, rfl⟩
+  ⟨rfl, rfl, rfl, rfl, rfl, rfl⟩
 
 /-! ## `runSteps` -/
 
@@ -76,6 +78,9 @@ theorem applyStep_maskFactor (E : Env) (st : Step) (t : St) : (applyStep E st t)
 theorem applyStep_config (E : Env) (st : Step) (t : St) : (applyStep E st t).config = t.config := by
   cases st <;> rfl
 
+theorem applyStep_trainable (E : Env) (st : Step) (t : St) : (applyStep E st t).trainable = t.trainable := by
+  cases st <;> rfl
+
 def Step.isMask : Step → Bool
   | .setMask _ => true
   | _ => false
@@ -98,7 +103,8 @@ theorem runSteps_keeps (E : Env) (fault : Option Nat) (steps : List Step) (i : N
    runSteps_proj St.mask E fault steps i s (fun st h t => applyStep_mask E st t (hm st h)),
    runSteps_proj St.maskFactor E fault steps i s (fun st _ t => applyStep_maskFactor E st t),
    runSteps_proj St.config E fault steps i s (fun st _ t => applyStep_config E st t),
-   runSteps_proj St.ls E fault steps i s (fun st h t => applyStep_ls E st t (hl st h))⟩
+   runSteps_proj St.ls E fault steps i s (fun st h t => applyStep_ls E st t (hl st h)),
+   runSteps_proj St.trainable E fault steps i s (fun st _ t => applyStep_trainable E st t)⟩
 
 /-! ## putting entries back -/
 
@@ -153,14 +159,15 @@ theorem setAll_frame :
 theorem restoreLs_other (s : St) : ∀ (ds : List Nat) (gs : List (List Nat)),
     (restoreLs s ds gs).params = s.params ∧ (restoreLs s ds gs).mask = s.mask ∧
     (restoreLs s ds gs).chainsIdx = s.chainsIdx ∧ (restoreLs s ds gs).notFull = s.notFull ∧
-    (restoreLs s ds gs).maskFactor = s.maskFactor ∧ (restoreLs s ds gs).config = s.config := by
+    (restoreLs s ds gs).maskFactor = s.maskFactor ∧ (restoreLs s ds gs).config = s.config ∧
+    (restoreLs s ds gs).trainable = s.trainable := by
   intro ds
   induction ds generalizing s with
-  | nil => intro gs; exact ⟨rfl, rfl, rfl, rfl, rfl, rfl⟩
+  | nil => intro gs; exact ⟨rfl, rfl, rfl, rfl, rfl, rfl, rfl⟩
   | cons d ds ih =>
     intro gs
     cases gs with
-    | nil => exact ⟨rfl, rfl, rfl, rfl, rfl, rfl⟩
+    | nil => exact ⟨rfl, rfl, rfl, rfl, rfl, rfl, rfl⟩
     | cons g gs =>
       simp only [restoreLs]
       exact ih (setLs s d g) gs
@@ -290,11 +297,13 @@ theorem maskItems_mask (E : Env) (fault : Option Nat) (saved : List (Nat × Val)
 theorem maskItems_other (E : Env) (fault : Option Nat) (saved : List (Nat × Val))
     (masks : List (List (Nat × Val))) (i : Nat) (s : St) :
     let t := (runSteps E fault (masks.flatMap fun j => [Step.setMask j, Step.eval, Step.setMask saved]) i s).1
-    t.params = s.params ∧ t.maskFactor = s.maskFactor ∧ t.config = s.config ∧ t.ls = s.ls := by
+    t.params = s.params ∧ t.maskFactor = s.maskFactor ∧ t.config = s.config ∧ t.ls = s.ls ∧
+      t.trainable = s.trainable := by
   refine ⟨runSteps_proj St.params E fault _ i s (fun st _ t => applyStep_params E st t),
     runSteps_proj St.maskFactor E fault _ i s (fun st _ t => applyStep_maskFactor E st t),
     runSteps_proj St.config E fault _ i s (fun st _ t => applyStep_config E st t),
-    runSteps_proj St.ls E fault _ i s (fun st h t => applyStep_ls E st t ?_)⟩
+    runSteps_proj St.ls E fault _ i s (fun st h t => applyStep_ls E st t ?_),
+    runSteps_proj St.trainable E fault _ i s (fun st _ t => applyStep_trainable E st t)⟩
   simp only [List.mem_flatMap] at h
   obtain ⟨j, _, h⟩ := h
   simp only [List.mem_cons, List.not_mem_nil, or_false] at h
@@ -307,12 +316,12 @@ theorem fiChain_keeps (fx : Fix) (hfx : fx.vmMask = true) (E : Env) (fault : Opt
   · exact Keeps.trans (keeps_setUsedChains E s [k])
       (runSteps_keeps E fault [Step.eval] i _ (by simp [Step.isMask]) (by simp [Step.isLs]))
   · simp only [hfx, Bool.and_true]
-    obtain ⟨h1, h3, h4, h5⟩ := maskItems_other E fault (setUsedChains E s [k]).mask (E.factorMasks[k]?.getD []) i
+    obtain ⟨h1, h3, h4, h5, h6⟩ := maskItems_other E fault (setUsedChains E s [k]).mask (E.factorMasks[k]?.getD []) i
       (setUsedChains E s [k])
     split
-    · exact ⟨h1, rfl, h3, h4, h5⟩
+    · exact ⟨h1, rfl, h3, h4, h5, h6⟩
     · rename_i hr
-      refine ⟨h1, ?_, h3, h4, h5⟩
+      refine ⟨h1, ?_, h3, h4, h5, h6⟩
       exact maskItems_mask E fault _ _ i _ rfl (by simpa using hr)
 
 theorem fiChains_keeps (fx : Fix) (hfx : fx.vmMask = true) (E : Env) (fault : Option Nat) (deep : Nat) :
@@ -357,15 +366,17 @@ theorem bamChain_keeps (fx : Fix) (hfx : fx.splitGls = true) (E : Env) (fault : 
   have hm := runSteps_proj St.mask E fault steps i s1 (fun st h t => applyStep_mask E st t (hnomask st h))
   have hf := runSteps_proj St.maskFactor E fault steps i s1 (fun st _ t => applyStep_maskFactor E st t)
   have hc := runSteps_proj St.config E fault steps i s1 (fun st _ t => applyStep_config E st t)
+  have htr := runSteps_proj St.trainable E fault steps i s1 (fun st _ t => applyStep_trainable E st t)
   have hls := restoreLs_ls s1.ls ds (runSteps E fault steps i s1).1 hlen hoff
-  obtain ⟨o1, o2, _, _, o5, o6⟩ := restoreLs_other (runSteps E fault steps i s1).1 ds (ds.map fun d => s1.ls[d]?.getD [])
+  obtain ⟨o1, o2, _, _, o5, o6, o7⟩ := restoreLs_other (runSteps E fault steps i s1).1 ds (ds.map fun d => s1.ls[d]?.getD [])
   have hk : Keeps s (restoreLs (runSteps E fault steps i s1).1 ds (ds.map fun d => s1.ls[d]?.getD [])) := by
-    refine ⟨?_, ?_, ?_, ?_, ?_⟩
+    refine ⟨?_, ?_, ?_, ?_, ?_, ?_⟩
     · rw [o1, hp, ← hs1]; rfl
     · rw [o2, hm, ← hs1]; rfl
     · rw [o5, hf, ← hs1]; rfl
     · rw [o6, hc, ← hs1]; rfl
     · rw [hls, hs1ls]
+    · rw [o7, htr, ← hs1]; rfl
   split <;> exact hk
 
 theorem bamChains_keeps (fx : Fix) (hfx : fx.splitGls = true) (E : Env) (fault : Option Nat) :
@@ -384,6 +395,117 @@ theorem bamChains_keeps (fx : Fix) (hfx : fx.splitGls = true) (E : Env) (fault :
     · exact h1
     · exact Keeps.trans h1 (ih _ _)
 
+/-! ## the further computations (plain evaluations, PlotAllData, likelihood_profile, get_params_error, partial_amp) -/
+
+theorem runSteps_evals_id (E : Env) (fault : Option Nat) : ∀ (n i : Nat) (s : St),
+    (runSteps E fault (evals n) i s).1 = s := by
+  intro n
+  induction n with
+  | zero => intro i s; rfl
+  | succ n ih =>
+    intro i s
+    rw [evals, List.replicate_succ, runSteps_eval]
+    split
+    · rfl
+    · exact ih (i + 1) s
+
+theorem runSteps_one_eval_id (E : Env) (fault : Option Nat) (i : Nat) (s : St) :
+    (runSteps E fault [Step.eval] i s).1 = s := runSteps_evals_id E fault 1 i s
+
+/-- `t` equals `s` up to the stored parameter values. -/
+def UpTo (s t : St) : Prop :=
+  t.mask = s.mask ∧ t.chainsIdx = s.chainsIdx ∧ t.notFull = s.notFull ∧ t.maskFactor = s.maskFactor ∧
+    t.config = s.config ∧ t.ls = s.ls ∧ t.trainable = s.trainable
+
+theorem UpTo.refl (s : St) : UpTo s s := ⟨rfl, rfl, rfl, rfl, rfl, rfl, rfl⟩
+
+theorem UpTo.of_eq {s t : St} (h : t = s) : UpTo s t := h ▸ UpTo.refl s
+
+theorem UpTo.trans {a b c : St} (h1 : UpTo a b) (h2 : UpTo b c) : UpTo a c := by
+  obtain ⟨p1, p2, p3, p4, p5, p6, p7⟩ := h1
+  obtain ⟨q1, q2, q3, q4, q5, q6, q7⟩ := h2
+  exact ⟨q1.trans p1, q2.trans p2, q3.trans p3, q4.trans p4, q5.trans p5, q6.trans p6, q7.trans p7⟩
+
+/-- putting the parameters back completes a state that is restored up to the parameters -/
+theorem UpTo.fix {s t : St} (h : UpTo s t) : { t with params := s.params } = s := by
+  obtain ⟨p1, p2, p3, p4, p5, p6, p7⟩ := h
+  exact St.eq_of rfl p1 p2 p3 p4 p5 p6 p7
+
+theorem UpTo.setParams (s : St) (ps : List Val) : UpTo s { s with params := ps } := ⟨rfl, rfl, rfl, rfl, rfl, rfl, rfl⟩
+
+/-- `t` equals `s` up to the stored parameter values and the list of trainable variables. -/
+def UpToPT (s t : St) : Prop :=
+  t.mask = s.mask ∧ t.chainsIdx = s.chainsIdx ∧ t.notFull = s.notFull ∧ t.maskFactor = s.maskFactor ∧
+    t.config = s.config ∧ t.ls = s.ls
+
+theorem UpToPT.fix {s t : St} (h : UpToPT s t) : { t with params := s.params, trainable := s.trainable } = s := by
+  obtain ⟨p1, p2, p3, p4, p5, p6⟩ := h
+  exact St.eq_of rfl p1 p2 p3 p4 p5 p6 rfl
+
+theorem UpToPT.trans {a b c : St} (h1 : UpToPT a b) (h2 : UpToPT b c) : UpToPT a c := by
+  obtain ⟨p1, p2, p3, p4, p5, p6⟩ := h1
+  obtain ⟨q1, q2, q3, q4, q5, q6⟩ := h2
+  exact ⟨q1.trans p1, q2.trans p2, q3.trans p3, q4.trans p4, q5.trans p5, q6.trans p6⟩
+
+theorem lpScan_upToPT (E : Env) (fault : Option Nat) (v : Nat) :
+    ∀ (xs : List Val) (i : Nat) (s : St), UpToPT s (lpScan E fault v xs i s).1 := by
+  intro xs
+  induction xs with
+  | nil => intro i s; exact ⟨rfl, rfl, rfl, rfl, rfl, rfl⟩
+  | cons x xs ih =>
+    intro i s
+    unfold lpScan
+    simp only
+    split
+    · exact ⟨rfl, rfl, rfl, rfl, rfl, rfl⟩
+    · exact UpToPT.trans (b := havocTr (setFix E s v x false)) ⟨rfl, rfl, rfl, rfl, rfl, rfl⟩ (ih _ _)
+
+/-- the patched `likelihood_profile` restores, whichever fit raises, whatever the fits leave behind -/
+theorem execLikeProf_fixed (E : Env) (fault : Option Nat) (v : Nat) (up down : List Val) (s : St) :
+    (execLikeProf true E fault v up down s).1 = s := by
+  unfold execLikeProf
+  split
+  · rfl
+  · simp only [if_true]
+    have h1 := lpScan_upToPT E fault v up 0 s
+    generalize lpScan E fault v up 0 s = res1 at h1
+    obtain ⟨s1, r1, i1⟩ := res1
+    simp only at h1 ⊢
+    split
+    · exact h1.fix
+    · have h3 := lpScan_upToPT E fault v down i1 { s1 with params := s.view }
+      generalize lpScan E fault v down i1 { s1 with params := s.view } = res3 at h3
+      obtain ⟨s3, r3, i3⟩ := res3
+      simp only at h3 ⊢
+      have h13 : UpToPT s s3 := UpToPT.trans (b := { s1 with params := s.view }) h1 h3
+      split
+      · exact h13.fix
+      · exact (UpToPT.trans (b := s3) h13 ⟨rfl, rfl, rfl, rfl, rfl, rfl⟩).fix
+
+theorem fdLoop_upTo (fault : Option Nat) : ∀ (n i : Nat) (s : St), UpTo s (fdLoop fault n i s).1 := by
+  intro n
+  induction n with
+  | zero => intro i s; exact UpTo.refl s
+  | succ n ih =>
+    intro i s
+    unfold fdLoop
+    simp only
+    split
+    · exact ⟨rfl, rfl, rfl, rfl, rfl, rfl, rfl⟩
+    · exact UpTo.trans (b := havocTr s) ⟨rfl, rfl, rfl, rfl, rfl, rfl, rfl⟩ (ih _ _)
+
+/-- the patched `get_params_error` restores: whatever `params` it is given, whichever evaluation raises -/
+theorem execParamsError_fixed (fault : Option Nat) (p : List (Nat × PV)) (nfd : Nat) (s : St) :
+    (execParamsError true fault p nfd s).1 = s := by
+  unfold execParamsError
+  simp only [if_true]
+  apply UpTo.fix
+  split
+  · exact UpTo.setParams s _
+  · split
+    · exact UpTo.setParams s _
+    · exact UpTo.trans (UpTo.setParams s (setAll p s.params).1) (fdLoop_upTo fault nfd 1 _)
+
 /-- the sites a computation goes through carry the patch -/
 def compCovered (fx : Fix) : Comp → Bool
   | .pw _ => fx.pw
@@ -393,6 +515,11 @@ def compCovered (fx : Fix) : Comp → Bool
   | .ffNew _ _ => fx.appendInt
   | .factorIter _ => fx.factorIter && fx.vmMask
   | .bam => fx.bam && fx.splitGls
+  | .evalN _ => true
+  | .plotAll _ => fx.plotAll
+  | .likeProf _ _ _ => fx.likeProf
+  | .paramsError _ _ => fx.hesse
+  | .partialAmp _ => fx.tempVar
 
 def blockCovered (fx : Fix) : Block → Bool
   | .absTemp _ => fx.absTemp
@@ -401,20 +528,55 @@ def blockCovered (fx : Fix) : Block → Bool
   | .usedRes _ => fx.usedRes
   | .glsOne => fx.glsOne
   | .tempConfig _ _ => fx.tempConfig
+  | .absTempSeq _ => fx.absTemp
+  | .vmTempSeq _ => true
 
 /-- every block / computation occurring in the program goes through patched sites only -/
 def covered (fx : Fix) : Prog → Bool
   | .skip => true
   | .raise => true
   | .compute c _ => compCovered fx c
+  | .setParams _ => true
   | .block b body => blockCovered fx b && covered fx body
   | .seq p q => covered fx p && covered fx q
+
+/-- every `set_params` of the user code sits inside (some level of) an `amp.temp_params` block -/
+def guarded : Prog → Bool
+  | .skip => true
+  | .raise => true
+  | .compute _ _ => true
+  | .setParams _ => false
+  | .block (.absTemp _) _ => true
+  | .block (.absTempSeq _) _ => true
+  | .block _ body => guarded body
+  | .seq p q => guarded p && guarded q
+
+/-- the program contains no `set_params` of the user code -/
+def noSet : Prog → Bool
+  | .setParams _ => false
+  | .block _ body => noSet body
+  | .seq p q => noSet p && noSet q
+  | _ => true
+
+theorem guarded_of_noSet (p : Prog) (h : noSet p = true) : guarded p = true := by
+  induction p with
+  | skip => rfl
+  | raise => rfl
+  | compute c f => rfl
+  | setParams q => simp [noSet] at h
+  | block b body ih =>
+    simp only [noSet] at h
+    cases b <;> first | rfl | exact ih h
+  | seq p q ihp ihq =>
+    simp only [noSet, Bool.and_eq_true] at h
+    simp [guarded, ihp h.1, ihq h.2]
 
 theorem covered_all (p : Prog) : covered Fix.all p = true := by
   induction p with
   | skip => rfl
   | raise => rfl
   | compute c _ => cases c <;> rfl
+  | setParams _ => rfl
   | block b body ih => cases b <;> simpa [covered, blockCovered, Fix.all] using ih
   | seq p q ihp ihq => simp [covered, ihp, ihq]
 
@@ -474,13 +636,39 @@ theorem execComp_covered (fx : Fix) (E : Env) (c : Comp) (hc : compCovered fx c 
         (runSteps_proj St.notFull E fault [Step.eval] 0 s (by simp [applyStep]))
         (runSteps_proj St.maskFactor E fault _ 0 s (fun st _ t => applyStep_maskFactor E st t))
         (runSteps_proj St.config E fault _ 0 s (fun st _ t => applyStep_config E st t))
-        (runSteps_proj St.ls E fault [Step.eval] 0 s (by simp [applyStep])))
+        (runSteps_proj St.ls E fault [Step.eval] 0 s (by simp [applyStep]))
+        (runSteps_proj St.trainable E fault _ 0 s (fun st _ t => applyStep_trainable E st t)))
     · simp only [hc.1, if_true]
       exact restoreChains_eq (fiChains_keeps fx hc.2 E fault deep s.chainsIdx 0 s)
   | bam =>
     simp only [compCovered, Bool.and_eq_true] at hc
     simp only [execComp, hc.1, if_true]
     exact restoreChains_eq (bamChains_keeps fx hc.2 E fault (List.range E.nChains) 0 s)
+  | evalN n =>
+    simp only [execComp]
+    exact runSteps_evals_id E fault n 0 s
+  | plotAll res =>
+    simp only [compCovered] at hc
+    simp only [execComp, hc, if_true]
+    apply restoreChains_eq
+    apply runSteps_keeps <;>
+    · intro st h
+      rcases List.mem_cons.mp h with h | h
+      · subst h; rfl
+      · simp only [List.mem_flatMap, List.mem_cons, List.not_mem_nil, or_false] at h
+        obtain ⟨_, _, h | h⟩ := h <;> subst h <;> rfl
+  | likeProf v up down =>
+    simp only [compCovered] at hc
+    simp only [execComp, hc]
+    exact execLikeProf_fixed E fault v up down s
+  | paramsError p nfd =>
+    simp only [compCovered] at hc
+    simp only [execComp, hc]
+    exact execParamsError_fixed fault p nfd s
+  | partialAmp zs =>
+    simp only [compCovered] at hc
+    simp only [execComp, hc, if_true]
+    rw [runSteps_one_eval_id]
 
 theorem execComp_fixed (E : Env) (c : Comp) (fault : Option Nat) (s : St) :
     (execComp Fix.all E c fault s).1 = s :=
@@ -537,6 +725,71 @@ theorem execBlock_covered (fx : Fix) (E : Env) (b : Block) (hb : blockCovered fx
     · rename_i h
       simp only [hbody]
       rw [set_set_back s.config k v h]
+  | absTempSeq vals =>
+    simp only [blockCovered] at hb
+    simp only [execBlock, hb, if_true]
+    split
+    · rfl
+    · simp only [hbody]
+  | vmTempSeq vals => rfl
+
+/-- a patched `amp.temp_params` block (dict or sequence form) restores EVERYTHING as soon as its body restores
+everything but the parameters: whatever `set_params` the body does is undone -/
+theorem execBlock_absTemp_full (fx : Fix) (hfx : fx.absTemp = true) (E : Env) (b : Block)
+    (hb : (∃ p, b = .absTemp p) ∨ (∃ vals, b = .absTempSeq vals)) (body : St → St × Bool)
+    (hbody : ∀ t, UpTo t (body t).1) (s : St) :
+    (execBlock fx E b body s).1 = s := by
+  rcases hb with ⟨p, rfl⟩ | ⟨vals, rfl⟩
+  · simp only [execBlock, hfx, if_true]
+    split
+    · rfl
+    · exact (UpTo.trans (UpTo.setParams s _) (hbody _)).fix
+  · simp only [execBlock, hfx, if_true]
+    split
+    · rfl
+    · exact (UpTo.trans (UpTo.setParams s _) (hbody _)).fix
+
+/-- every patched block restores everything but the parameters if its body does -/
+theorem execBlock_upTo (fx : Fix) (E : Env) (b : Block) (hb : blockCovered fx b = true) (body : St → St × Bool)
+    (hbody : ∀ t, UpTo t (body t).1) (s : St) :
+    UpTo s (execBlock fx E b body s).1 := by
+  cases b with
+  | absTemp p => exact UpTo.of_eq (execBlock_absTemp_full fx hb E _ (Or.inl ⟨p, rfl⟩) body hbody s)
+  | absTempSeq vals => exact UpTo.of_eq (execBlock_absTemp_full fx hb E _ (Or.inr ⟨vals, rfl⟩) body hbody s)
+  | vmTempSeq vals => exact UpTo.refl s
+  | vmTemp p =>
+    simp only [blockCovered] at hb
+    simp only [execBlock, hb, if_true]
+    split
+    · exact UpTo.refl s
+    · split
+      · exact UpTo.setParams s _
+      · exact UpTo.trans (UpTo.trans (UpTo.setParams s _) (hbody _)) (UpTo.setParams _ _)
+  | maskParams m =>
+    simp only [blockCovered] at hb
+    simp only [execBlock, hb, Bool.true_or, if_true]
+    obtain ⟨h1, h2, h3, h4, h5, h6, h7⟩ := hbody { s with mask := m }
+    exact ⟨rfl, h2, h3, h4, h5, h6, h7⟩
+  | usedRes r =>
+    simp only [blockCovered] at hb
+    simp only [execBlock, hb, if_true]
+    obtain ⟨h1, h2, h3, h4, h5, h6, h7⟩ := hbody (setUsedRes E s r)
+    exact ⟨h1, rfl, rfl, h4, h5, h6, h7⟩
+  | glsOne =>
+    simp only [blockCovered] at hb
+    simp only [execBlock, hb, Bool.true_or, if_true]
+    obtain ⟨h1, h2, h3, h4, h5, h6, h7⟩ := hbody { s with maskFactor := s.maskFactor.map fun _ => true }
+    exact ⟨h1, h2, h3, rfl, h5, h6, h7⟩
+  | tempConfig k v =>
+    simp only [blockCovered] at hb
+    simp only [execBlock, hb, Bool.true_or, if_true]
+    split
+    · exact UpTo.refl s
+    · rename_i h
+      obtain ⟨h1, h2, h3, h4, h5, h6, h7⟩ := hbody { s with config := s.config.set k v }
+      refine ⟨h1, h2, h3, h4, ?_, h6, h7⟩
+      simp only [h5]
+      exact set_set_back s.config k v h
 
 theorem execBlock_fixed (E : Env) (b : Block) (body : St → St × Bool) (hbody : ∀ t, (body t).1 = t) (s : St) :
     (execBlock Fix.all E b body s).1 = s :=
@@ -576,8 +829,8 @@ theorem saveRunRestore_asis (E : Env) (steps : List Step) (s : St) (hwf : WF E s
   simp only at hk hr
   subst hr
   simp only [Bool.false_eq_true, if_false, Prod.mk.injEq, and_true]
-  obtain ⟨p1, p2, p3, p4, p5⟩ := hk
-  exact St.eq_of p1 p2 rfl (by simp [setUsedChains]; exact hwf.symm) p3 p4 p5
+  obtain ⟨p1, p2, p3, p4, p5, p6⟩ := hk
+  exact St.eq_of p1 p2 rfl (by simp [setUsedChains]; exact hwf.symm) p3 p4 p5 p6
 
 theorem viewFrom_nil : ∀ (ps : List Val) (i : Nat), viewFrom [] ps i = ps := by
   intro ps
